@@ -253,7 +253,97 @@ func remarshal(in interface{}, out interface{}) {
 	json.Unmarshal(b, out)
 }
 
+// helpDeepPaths: the usage line of a deeply nested command carries its own full path, whichever sibling was
+// declared / initialised last.
+func helpDeepPaths(c *Ctx) {
+	for depth := 2; depth <= 8; depth++ {
+		for target := 0; target < 3; target++ {
+			for _, long := range []bool{false, true} {
+				app := cli.App("app", "")
+				app.ErrorHandling = flag.ContinueOnError
+				names := []string{"app"}
+				var build func(cmd *cli.Cmd, lvl int)
+				build = func(cmd *cli.Cmd, lvl int) {
+					cmd.Action = func() {}
+					if lvl == depth {
+						return
+					}
+					for sib := 0; sib < 3; sib++ {
+						sib := sib
+						cmd.Command(fmt.Sprintf("l%ds%d", lvl+1, sib), "", func(sub *cli.Cmd) { build(sub, lvl+1) })
+					}
+				}
+				build(app.Cmd, 0)
+				argv := []string{"app"}
+				for lvl := 1; lvl <= depth; lvl++ {
+					sib := (target + lvl) % 3
+					if lvl == depth {
+						sib = target
+					}
+					argv = append(argv, fmt.Sprintf("l%ds%d", lvl, sib))
+					names = append(names, fmt.Sprintf("l%ds%d", lvl, sib))
+				}
+				if long {
+					argv = append(argv, "--help")
+				} else {
+					argv = append(argv, "--no-such-option")
+				}
+				o := runIsolated(func() error { return app.Run(argv) })
+				c.Count("evaluations", 1)
+				c.Count("nontrivial", 1)
+				c.Count("deep_paths", 1)
+				want := "Usage: " + strings.Join(names, " ")
+				if !hasLine(strings.Join(hNorm(o.Stderr), "\n"), want) {
+					c.Violation("C17", fmt.Sprintf("deep tree: help of %q (3 siblings per level)", argv[1:]), Case{"deep": true}, "usage line `"+want+"`", fmt.Sprintf("%q", hNorm(o.Stderr)))
+				}
+			}
+		}
+	}
+	c.Note("deep paths", "chains of depth 2..8 with three siblings on every level: the usage line of the addressed command (each sibling position, short and long help) must show its own full path")
+}
+
+// helpAfterBinding: on an application whose options and arguments already received command-line values
+// (a first, accepted Run), a help request on the same instance still shows the DECLARED defaults.
+func helpAfterBinding(c *Ctx, d *hDecl) {
+	if d.Depth != 0 || !d.LongH || d.Spec != "" || len(d.Args)+len(d.Opts) == 0 {
+		return
+	}
+	os.Setenv("VQ_H1", hEnvValue(d))
+	app := hBuildFull(d)
+	os.Unsetenv("VQ_H1")
+	argv := []string{"app"}
+	for _, o := range d.Opts {
+		n := strings.Fields(o.Names)[0]
+		dash := "--"
+		if len(n) == 1 {
+			dash = "-"
+		}
+		if o.Typ == 0 {
+			argv = append(argv, dash+n)
+		} else {
+			argv = append(argv, dash+n+"="+vtypes[o.Typ].cmd[0])
+		}
+	}
+	for _, a := range d.Args {
+		argv = append(argv, vtypes[a.Typ].cmd[0])
+	}
+	o1 := runIsolated(func() error { return app.Run(argv) })
+	if !(o1.Returned && o1.Err == nil) {
+		return
+	}
+	o := runIsolated(func() error { return app.Run([]string{"app", "--help"}) })
+	c.Count("evaluations", 1)
+	c.Count("help_after_binding", 1)
+	got, want := hNorm(o.Stderr), hExpected(d)
+	if strings.Join(got, "\n") != strings.Join(want, "\n") {
+		c.Violation("C17", fmt.Sprintf("help of %s after a first Run %q on the same instance", jstr(d), argv[1:]), Case{"decl": d, "after_binding": true}, strings.Join(want, " ⏎ "), strings.Join(got, " ⏎ "))
+	}
+}
+
 func runHelpText(c *Ctx) {
+	if c.Shard == 0 && c.Begin("helptext-deep") {
+		helpDeepPaths(c)
+	}
 	idx := 0
 	do := func(d hDecl) {
 		for depth := 0; depth < 2; depth++ {
@@ -268,6 +358,7 @@ func runHelpText(c *Ctx) {
 				}
 				dd := d
 				helpTextCase(c, &dd)
+				helpAfterBinding(c, &dd)
 			}
 		}
 	}
@@ -386,8 +477,16 @@ func runHelpText(c *Ctx) {
 }
 
 func replayHelpText(c *Ctx, cs Case) {
+	if deep, _ := cs["deep"].(bool); deep {
+		helpDeepPaths(c)
+		return
+	}
 	var d hDecl
 	remarshal(cs["decl"], &d)
+	if ab, _ := cs["after_binding"].(bool); ab {
+		helpAfterBinding(c, &d)
+		return
+	}
 	helpTextCase(c, &d)
 }
 
